@@ -26,6 +26,7 @@ type srcInfo struct {
 	Const constant.Value
 	At    ssa.Instruction
 	Param *ssa.Parameter
+	Field int // for Kind "paramfield": field index of the struct parameter Param
 }
 
 func (s srcInfo) String() string {
@@ -88,6 +89,10 @@ func (s *slicer) structFieldSources(v ssa.Value, field int) []srcInfo {
 					if y.Addr == al {
 						out = append(out, s.structFieldSources(y.Val, field)...)
 					}
+				case *ssa.Call:
+					// p := helper(&al, tok) ; *p = value — the helper hands out the address of one of the
+					// struct's fields, chosen by the token it is given (an option table)
+					out = append(out, s.storesThroughHelperPointer(y, al, field)...)
 				}
 			}
 			return out
@@ -146,7 +151,10 @@ func newSlicer(p *Prog, fn *ssa.Function) *slicer {
 			continue
 		}
 		if _, names := fieldPath(bo.X); len(names) == 0 || names[len(names)-1] != "Token" {
-			continue
+			// a token passed around as a value (a helper's `tok toki.Token` parameter)
+			if !strings.HasSuffix(bo.X.Type().String(), "toki.Token") {
+				continue
+			}
 		}
 		if n, ok := s.tokens[k]; ok && !s.valueTk[n] {
 			s.guards = append(s.guards, tokenGuard{b, n})
@@ -294,6 +302,44 @@ func (s *slicer) sourcesAt(v ssa.Value, at *ssa.BasicBlock) []srcInfo {
 					rec(call.Call.Args[0], mult, depth+1)
 					return
 				}
+				// a piece of a string cut by the standard library (strings.Cut): like an element of strings.SplitN,
+				// it belongs to the case that controls its assignment
+				if n == "strings.Cut" || n == "bytes.Cut" || n == "strings.CutPrefix" || n == "strings.CutSuffix" {
+					if tokenSrc() {
+						return
+					}
+				}
+				// a module helper that parses options itself (readRouteOpts): its result is fed by the option
+				// tokens under whose cases the helper assigns it
+				if hc, idx, ok := helperResult(x); ok && s.depth < 3 {
+					g := hc.Call.StaticCallee()
+					sub := newSlicer(s.p, g)
+					sub.depth = s.depth + 1
+					var got []srcInfo
+					nTok := 0
+					allInstrs(g, func(in ssa.Instruction) {
+						ret, ok := in.(*ssa.Return)
+						if !ok || idx >= len(ret.Results) {
+							return
+						}
+						for _, si := range sub.sources(ret.Results[idx]) {
+							if si.Kind == "token" {
+								nTok++
+							}
+							got = append(got, si)
+						}
+					})
+					if nTok > 0 {
+						for _, si := range got {
+							if si.Kind == "param" || si.Kind == "paramfield" {
+								continue
+							}
+							si.Mult *= mult
+							add(si)
+						}
+						return
+					}
+				}
 				// a module helper that reads the option's value from the scanner (readOptWord(s)):
 				// its result is a token value; the option it belongs to is the case the call sits in
 				if hc, idx, ok := helperResult(x); ok && s.depth < 3 && returnsTokenValue(s, hc.Call.StaticCallee(), idx) {
@@ -354,6 +400,12 @@ func (s *slicer) sourcesAt(v ssa.Value, at *ssa.BasicBlock) []srcInfo {
 									n++
 									continue
 								}
+								if p, ok := st.Val.(*ssa.Parameter); ok {
+									// a struct parameter copied into a local (value receiver): its field
+									add(srcInfo{Kind: "paramfield", Name: f.Name(), Mult: mult, Param: p, Field: a.Field, At: st})
+									n++
+									continue
+								}
 								name := f.Name()
 								if _, fromCall := st.Val.(*ssa.Extract); fromCall {
 									name += "@init" // initial value produced by a constructor call
@@ -386,6 +438,10 @@ func (s *slicer) sourcesAt(v ssa.Value, at *ssa.BasicBlock) []srcInfo {
 		case *ssa.Field:
 			st := x.X.Type().Underlying().(*types.Struct)
 			if descend(x.X, x.Field, mult, depth) {
+				return
+			}
+			if p, ok := x.X.(*ssa.Parameter); ok {
+				add(srcInfo{Kind: "paramfield", Name: st.Field(x.Field).Name(), Mult: mult, Param: p, Field: x.Field, At: x})
 				return
 			}
 			add(srcInfo{Kind: "field", Name: st.Field(x.Field).Name(), Mult: mult, At: x})
@@ -605,4 +661,86 @@ func returnsTokenValue(s *slicer, g *ssa.Function, idx int) bool {
 		}
 	})
 	return ok && nTok > 0
+}
+
+// storesThroughHelperPointer: call passes the struct variable al (by address) to a module helper
+// that returns a pointer; where the helper returns the address of field #field of that struct,
+// the guards under which it does so (in the helper) say which option token the values later
+// stored through the returned pointer belong to.
+func (s *slicer) storesThroughHelperPointer(call *ssa.Call, al *ssa.Alloc, field int) []srcInfo {
+	g := call.Call.StaticCallee()
+	if g == nil || g.Blocks == nil || !ModuleFunc(g) || s.depth >= 3 {
+		return nil
+	}
+	argIdx := -1
+	for i, a := range call.Call.Args {
+		if a == ssa.Value(al) {
+			argIdx = i
+		}
+	}
+	if argIdx < 0 || argIdx >= len(g.Params) {
+		return nil
+	}
+	recv := g.Params[argIdx]
+	var out []srcInfo
+	sub := newSlicer(s.p, g)
+	sub.depth = s.depth + 1
+	// results of the call that are pointers, and whether something is stored through them
+	for _, r := range *call.Referrers() {
+		ex, ok := r.(*ssa.Extract)
+		if !ok {
+			continue
+		}
+		if _, isPtr := ex.Type().(*types.Pointer); !isPtr {
+			continue
+		}
+		stored := false
+		for _, rr := range *ex.Referrers() {
+			if st, ok := rr.(*ssa.Store); ok && st.Addr == ssa.Value(ex) {
+				stored = true
+			}
+		}
+		if !stored {
+			continue
+		}
+		allInstrs(g, func(in ssa.Instruction) {
+			ret, ok := in.(*ssa.Return)
+			if !ok || ex.Index >= len(ret.Results) {
+				return
+			}
+			fa, ok := ret.Results[ex.Index].(*ssa.FieldAddr)
+			if !ok || fa.X != ssa.Value(recv) || fa.Field != field {
+				return
+			}
+			names := sub.guardOf(ret.Block())
+			if len(names) == 0 {
+				out = append(out, srcInfo{Kind: "other", Name: "field address handed out unconditionally", Mult: 1, At: ret})
+				return
+			}
+			out = append(out, srcInfo{Kind: "token", Name: strings.Join(names, "+"), Mult: 1, At: ret})
+		})
+	}
+	return out
+}
+
+// fieldOfValue: sources of field #field of the struct value v inside s.fn (a local struct variable,
+// or the struct result of a module helper).
+func (s *slicer) fieldOfValue(v ssa.Value, field int) []srcInfo {
+	if call, idx, ok := helperResult(v); ok && s.depth < 3 {
+		callee := call.Call.StaticCallee()
+		sub := newSlicer(s.p, callee)
+		sub.depth = s.depth + 1
+		var out []srcInfo
+		allInstrs(callee, func(in ssa.Instruction) {
+			ret, ok := in.(*ssa.Return)
+			if !ok || idx >= len(ret.Results) {
+				return
+			}
+			out = append(out, sub.structFieldSources(ret.Results[idx], field)...)
+		})
+		if len(out) > 0 {
+			return out
+		}
+	}
+	return s.structFieldSources(v, field)
 }
